@@ -639,6 +639,8 @@ var Rules = []report.Rule{
 	{ID: "G19", Floor: 4, Props: []string{"C01", "C02", "C11", "C14"}, Text: "scheduleFlowAndToposort gives every function one DependsOn edge per provider of each of its dependency types (predicate sentinels included), unconditionally"},
 	{ID: "G20", Floor: 1, Props: []string{"C13", "C15"}, Text: "AST nodes constructed by the generator carry no source position (the expression printer hoists exactly the positioned, i.e. user-written, expressions)"},
 	{ID: "G21", Floor: 8, Props: []string{"C13"}, Text: "every index into a slice/tuple whose length is the arity of a user function is in range for every length the dominating tests admit (evaluated per hypothesis len == 0..6)"},
+	{ID: "G23", Floor: 1, Props: []string{"C13"}, Text: "(*types.Package).Path/Name on Obj().Pkg() (nil for universe objects such as error) is dominated by a nil test"},
+	{ID: "G24", Floor: 3, Props: []string{"C13", "C14"}, Text: "results of the compiler's may-return-nil constructors are nil-tested before any field access, also after being stored in a slice that is ranged over later"},
 	{ID: "G18", Floor: 3, Props: []string{"C02", "C13", "C14"}, Text: "no Go map keyed by types.Type; type/predicate ids are memoised through typeutil.Map"},
 }
 
@@ -666,5 +668,6 @@ func Run(repo *load.Repo, s *report.Sink) error {
 	c.typeKeyed()
 	c.dependsOn()
 	c.bounds()
+	c.nilSafety()
 	return nil
 }
